@@ -278,7 +278,21 @@ Definition new_import_doc (rec : list N -> st -> st) (stk : list (list N)) (cur 
 
 (* as found in the source: the import is registered on every import statement, or (if the
    source only does it inside the load-once guard) only when the file is actually loaded *)
+Definition nop_eqb (a b : nop) : bool :=
+  match a, b with NEnter, NEnter | NLoad, NLoad | NLeave, NLeave => true | _, _ => false end.
+Fixpoint nops_eqb (a b : list nop) : bool :=
+  match a, b with
+  | [], [] => true
+  | x :: a', y :: b' => nop_eqb x y && nops_eqb a' b'
+  | _, _ => false
+  end.
+(* the namespace stack discipline of the source around the nested load: enter, load, leave.
+   The model represents the stack by the nesting of loads, which is only right for that
+   discipline; any other statement list found in the source is outside the model. *)
+Definition stack_balanced : bool := nops_eqb nested_ops [NEnter; NLoad; NLeave].
+
 Definition new_import (rec : list N -> st -> st) (stk : list (list N)) (cur imp : list N) (s : st) : st :=
+  if negb stack_balanced then (if has_err s then s else set_err EFuel s) else
   if register_import_always then new_import_doc rec stk cur imp s
   else
     if has_err s then s else
@@ -290,6 +304,26 @@ Definition new_import (rec : list N -> st -> st) (stk : list (list N)) (cur imp 
 (* language_from_str for the grammar file of namespace ns (already entered):
    import statements first (each loads its file completely, both passes), then the rule
    names of this file, then this file's second pass. *)
+Fixpoint load_doc (fuel : nat) (fs : fsys) (stk : list (list N)) (ns : list N) (s : st) : st :=
+  if has_err s then s else
+  match aget ns fs with
+  | None => set_err (EFileNotFound ns) s
+  | Some f =>
+      match fuel with
+      | O => set_err EFuel s
+      | S fuel' =>
+          let s0 := log_load ns s in
+          let s1 := fold_left (fun s imp => new_import (load_doc fuel' fs (ns :: stk)) (ns :: stk) ns imp s)
+                              (gimports f) s0 in
+          let s2 := fold_left (fun s r => new_class ns r s) (grules f) s1 in
+          second_pass ns f s2
+      end
+  end.
+
+(* The same driven by the facts found in the source: the order in which the import statements
+   are visited, and whether the second pass of a grammar runs before its load returns (i.e.,
+   for an imported grammar, inside _new_import, before the importer continues) or is deferred
+   until every file has been visited. *)
 Fixpoint load (fuel : nat) (fs : fsys) (stk : list (list N)) (ns : list N) (s : st) : st :=
   if has_err s then s else
   match aget ns fs with
@@ -300,15 +334,21 @@ Fixpoint load (fuel : nat) (fs : fsys) (stk : list (list N)) (ns : list N) (s : 
       | S fuel' =>
           let s0 := log_load ns s in
           let s1 := fold_left (fun s imp => new_import (load fuel' fs (ns :: stk)) (ns :: stk) ns imp s)
-                              (gimports f) s0 in
+                              (if imports_in_text_order then gimports f else rev (gimports f)) s0 in
           let s2 := fold_left (fun s r => new_class ns r s) (grules f) s1 in
-          second_pass ns f s2
+          if second_pass_inside_import then second_pass ns f s2 else s2
       end
   end.
 
+Definition deferred_passes (fs : fsys) (s : st) : st :=
+  fold_left (fun s ns => match aget ns fs with Some f => second_pass ns f s | None => s end) (loads s) s.
+
 (* metamodel_from_file(main) *)
+Definition load_main_doc (fs : fsys) (main : list N) : st :=
+  load_doc (S (length fs)) fs [] main (enter main init).
 Definition load_main (fs : fsys) (main : list N) : st :=
-  load (S (length fs)) fs [] main (enter main init).
+  let s := load (S (length fs)) fs [] main (enter main init) in
+  if second_pass_inside_import then s else deferred_passes fs s.
 
 (* ---------------------------------------------------------------- the documented resolution *)
 Definition defines (fs : fsys) (ns name : list N) : bool :=
